@@ -2,6 +2,7 @@
    Gen/C17TupleSet.v is regenerated on every run from element_junction_tuples() of the code under test. *)
 From Coq Require Import String List Bool ZArith.
 From PP Require Import C17.Model C17.Proofs Gen.C17TupleSet.
+From PP Require C04.Model C04.ProofsReduce C17.Subnet.
 Import ListNotations.
 Open Scope string_scope.
 
@@ -153,6 +154,24 @@ Theorem fuse_redirects_code : forall cs j1 js n, exact cs n -> pexact n ->
 Proof. intros. now apply step_model_eq_spec. Qed.
 Print Assumptions fuse_redirects_code.
 
+(* FRAME in terms of the payload ("never alter elements they were not asked to touch"): whatever the operation, every
+   row it leaves - element, geodata or result row - is a row of the net before with identical KN cells; the harness
+   ships all non-reference columns of a row as one KN cell (#payload, bit-exact hash), compared in every case.
+   For the removing operations the whole row is unchanged (frame_rows_unchanged). *)
+Theorem payload_follows_row : forall o n, exact (cs_of o) n ->
+  forall tn r', In r' (rows_of tn (step model_sem o n)) ->
+    exists r, In r (rows_of tn n) /\ kn_cells r' = kn_cells r.
+Proof. intros o n H. apply step_keeps_kn; [now apply exact_noKN | apply model_selP_noKN]. Qed.
+Print Assumptions payload_follows_row.
+
+(* the non-default options are inside the model too: fuse_junctions(drop=False) and select_subnet(include_results=True)
+   keep every reference intact (same hypotheses and guards as no_dangling, which quantifies over all constructors) *)
+Example options_in_model :
+  ri_jb (exec model_sem [FuseKeep today_cs 4%Z [1%Z]; SelectRes today_cs [4%Z; 3%Z; 2%Z]] witness) = true /\
+  rows_of "valve" (step model_sem (FuseKeep today_cs 4%Z [1%Z]) witness) =
+    [mkRow 0 [mkCell "element" KP 1; mkCell "junction" KJ 4]].
+Proof. vm_compute. auto. Qed.
+
 (* select_subnet = restriction to the region: an element row (without pipe reference) is in the subnet iff it has a
    junction reference and ALL its junction references are selected; the junctions are the selected ones.  For a region
    closed under element connections these are exactly the region's rows, so by C04 (reduce_eq_delete: the reduced
@@ -167,6 +186,32 @@ Theorem subnet_of_supplied_region : forall cs js n,
   (forall l, In l (labels_of "junction" (step spec_sem (Select cs js) n)) <-> In l (labels_of "junction" n) /\ In l js).
 Proof. intros. split; [intros tn r; apply subnet_rows | intros l; apply subnet_junctions]. Qed.
 Print Assumptions subnet_of_supplied_region.
+
+(* ... composed with C04: the branch pit of the subnet (junction rows of the region; of every branch table the rows with
+   both ends in the region - what subnet_of_supplied_region says select_subnet builds) IS the reduced pit of the full net
+   under the masks "junction in region" / "branch inside region": same renumbered from / to positions, same structural
+   flags, same order.  Side conditions: unique junction labels, intact references.  So whenever the calculation of the
+   full net reduces to the region (the region is its supplied part: C18.graph_components_eq_islands / C04
+   connectivity), solver and subnet work on the same pit; that hydraulically separate supplied islands do not influence
+   each other is not proved here (subnet monitor). *)
+Theorem subnet_pit_is_reduced_pit : forall js tabs region,
+  NoDup js -> (forall r, In r (concat tabs) -> In (PP.C04.Model.r_from r) js /\ In (PP.C04.Model.r_to r) js) ->
+  map PP.C04.ProofsReduce.ends (PP.C04.Model.mk_branches (PP.C17.Subnet.sub_js js region) (PP.C17.Subnet.sub_tabs tabs region)) =
+  map (fun bf => (fst (snd bf), snd (snd bf),
+                  (PP.C04.Model.b_active (fst bf), PP.C04.Model.b_directed (fst bf), PP.C04.Model.b_frc (fst bf))))
+      (combine (PP.C06.Model.select (PP.C17.Subnet.bmask tabs region) (PP.C04.Model.mk_branches js tabs))
+               (PP.C04.Model.reduce_ft (PP.C17.Subnet.nmask js region) (PP.C17.Subnet.bmask tabs region)
+                                       (PP.C04.Model.mk_branches js tabs))).
+Proof. exact PP.C17.Subnet.subnet_pit_is_reduced_pit. Qed.
+Print Assumptions subnet_pit_is_reduced_pit.
+
+Example subnet_pit_instance :
+  let js := [10; 4; 7; 22]%Z in
+  let tabs := [[PP.C04.Model.Build_brow 1 10 4 true false false; PP.C04.Model.Build_brow 2 4 7 true false false];
+               [PP.C04.Model.Build_brow 0 7 22 true true false]]%Z in
+  map PP.C04.ProofsReduce.ends (PP.C04.Model.mk_branches (PP.C17.Subnet.sub_js js [4; 7; 22]%Z) (PP.C17.Subnet.sub_tabs tabs [4; 7; 22]%Z))
+  = [(0, 1, (true, false, false)); (1, 2, (true, true, false))]%Z.
+Proof. vm_compute. reflexivity. Qed.
 
 (* non-vacuity: without the valve the witness satisfies every hypothesis used above, for today's tuple set *)
 Example hypotheses_satisfiable :
